@@ -1,9 +1,52 @@
-import MaestroVerif.Model.Exec
+import MaestroVerif.Lemmas.ExecDemo
 
-/-! # C17 — A dry run generates everything and executes nothing (theorems are being added) -/
+/-!
+# C17 — A dry run generates everything and executes nothing
+-/
 namespace MaestroVerif.C17
 open MaestroVerif.Exec MaestroVerif.Gen
 
-theorem C17_init_not_canceled (cfg : Cfg) : (init cfg).isCanceled = false := rfl
+/-- **In a dry run a poll only generates scripts**: the events it appends are
+`gen` events — no status query, no submission, no local run, no cancellation. -/
+theorem C17_no_side_effects (cfg : Cfg) (hd : cfg.dry = true) (g : G) (p : PollIn) :
+    ∃ evs, (poll cfg g p).1.log = g.log ++ evs ∧ ∀ e, e ∈ evs → IsGen e :=
+  poll_log_dry cfg hd g p
+
+/-- nothing is ever tracked as in flight and no job is ever live -/
+theorem C17_nothing_in_flight {cfg : Cfg} (wf : WFCfg' cfg) (hd : cfg.dry = true) {g : G}
+    (h : Reachable cfg g) : g.inProgress = [] ∧ g.live = [] := by
+  have A := invAll_reachable wf h
+  have hip := A.toInv.dryIdle hd
+  refine ⟨hip, ?_⟩
+  cases hl : g.live with
+  | nil => rfl
+  | cons x xs =>
+    have : x ∈ g.inProgress := (A.b.liveEq x).mp (by rw [hl]; simp)
+    rw [hip] at this; simp at this
+
+/-- the script of a launched step is generated exactly as in a real run: the
+`gen` event is emitted by the same code (`execPrep`) before the dry-run test -/
+theorem C17_same_generation (cfg : Cfg) (g : G) (i : Nat) :
+    (execPrep cfg g i false).log = g.log ++ [Ev.gen i] := by
+  simp [execPrep, emit]
+
+/-- a launched step is reported DRYRUN and counts as complete -/
+theorem C17_launch_marks_dryrun (cfg : Cfg) (hd : cfg.dry = true) (g : G) (i : Nat) :
+    (executeRecord cfg g i false).status i = .DRYRUN ∧ i ∈ (executeRecord cfg g i false).completed := by
+  simp [executeRecord, hd, dryMark, setStatus]
+
+/-- every step a dry run ever touched is in state DRYRUN (or still INITIALIZED) -/
+theorem C17_states {cfg : Cfg} (wf : WFCfg' cfg) (hd : cfg.dry = true) {g : G}
+    (h : Reachable cfg g) (i : Nat) (hi : i ∈ g.completed) (h0 : i ≠ 0) :
+    g.status i = .FINISHED ∨ g.status i = .DRYRUN :=
+  (invAll_reachable wf h).toInv.toInvA.cmpS i hi h0
+
+/-! non-vacuity: the demo DAG as a dry run is complete after three polls -/
+def dryCfg : Cfg := { demoCfg with dry := true }
+
+example : (run dryCfg [.poll ⟨.OK, []⟩, .poll ⟨.OK, []⟩, .poll ⟨.OK, []⟩]).completed = [0, 1, 2, 3, 4] ∧
+    verdict dryCfg (run dryCfg [.poll ⟨.OK, []⟩, .poll ⟨.OK, []⟩, .poll ⟨.OK, []⟩]) = .FINISHED ∧
+    (run dryCfg [.poll ⟨.OK, []⟩, .poll ⟨.OK, []⟩, .poll ⟨.OK, []⟩]).log =
+      [.gen 1, .gen 2, .gen 3, .gen 4] := by decide +kernel
 
 end MaestroVerif.C17
